@@ -169,14 +169,19 @@ CHECKS = {
         text=("Theorems (Props/C14.lean): lex_of_dominance / lex_of_cert — for an objective whose absolute weights pass the "
               "decidable dominance certificate (non-negative, equal inside a level, each strictly larger than the sum of all "
               "weights of lower levels), and any two 0/1 configurations, the sign of the objective difference is the sign of "
-              "the level-sum difference at the highest level where they differ; equal_of_no_difference. Certificate tie: the "
+              "the level-sum difference at the highest level where they differ; equal_of_no_difference; shadow_objective_dominates / "
+              "configurator_objective_lex — for EVERY priority input the objective in key form (C13's shadowSpec over [default "
+              "priorities, user priorities]; key = (row, magnitude)) passes that certificate, hence ranks any two 0/1 "
+              "configurations by user priority magnitude, then the non-default branch, then every other column (level_order). "
+              "Certificate tie: the "
               "Lean driver evaluates the certificate on every objective vector the real select() hands to the solver, with "
               "levels = user priority magnitudes above default magnitude 2 (non-default branch) above default magnitude 1. "
               "Equality ties: structure after the default restructuring (cc_build), default_prios, and the objective vector "
-              "(shadow over [defaults, user priorities]) compared with the model. Oracle: pairs of feasible 0/1 configurations "
+              "(shadow over [defaults, user priorities]) compared with the model — both with the plumbing model and with the key "
+              "form the theorem is about. Oracle: pairs of feasible 0/1 configurations "
               "ranked lexicographically by the statement's levels vs the objective values."),
-        note="The theorem is generic in the weights; that the real weights satisfy its hypothesis is decided per run by the certificate (on the generated configurators), not proved for all configurators. Boolean items only.",
-        technique="Lean 4 theorem (dominance => lexicographic order) + decidable certificate evaluated on the implementation's output + differential correspondence",
+        note="Since session 3 the certificate is also a theorem about the key-form objective for all inputs; that the real objective equals the key form is tied per run (op objective: w and spec) and, independently, the certificate is still evaluated on the real vectors. Boolean items only.",
+        technique="Lean 4 theorem (dominance => lexicographic order; the shadow weights over [defaults, user] dominate for every input) + decidable certificate evaluated on the implementation's output + differential correspondence",
         ref="§4 C14"),
     "C15": dict(
         text=("Theorems (Props/C15.lean): objective_entry / objective_length (entry at each column = weight given for that "
